@@ -14,7 +14,6 @@ import (
 	oracletypes "github.com/bandprotocol/chain/v3/x/oracle/types"
 	tsstypes "github.com/bandprotocol/chain/v3/x/tss/types"
 	tunneltypes "github.com/bandprotocol/chain/v3/x/tunnel/types"
-	"github.com/bandprotocol/chain/v3/zzverif/engine"
 )
 
 const nulClause = "signal-id-with-leading-nul-not-recoverable-from-bytes32"
@@ -486,7 +485,7 @@ func transitionCase(pub []byte, unix int64) contentCase {
 
 // evalContent installs the on-chain data, calls the real route handler registered in app.go (with
 // its selector wrapper) and judges the produced content.  It returns the content bytes (nil on error).
-func evalContent(b *base, t *engine.Tally, cs *syncCollisions, ctx sdk.Context, c contentCase, section string) []byte {
+func evalContent(b *base, t tally, cs *syncCollisions, ctx sdk.Context, c contentCase, section string) []byte {
 	cfg := map[string]any{"section": section}
 	unix := ctx.BlockTime().Unix()
 	input := fmt.Sprintf("%s@time=%d", c.desc, unix)
